@@ -69,6 +69,30 @@ where
         "take_count" => Obs::Len(it.by_ref().take(n).count()),
         "rev_take_count" => Obs::Len(it.by_ref().rev().take(n).count()),
         "take_last" => o(f, it.by_ref().take(n).last()),
+        // position / rposition with a counting predicate: Some(index from the front) of the (n+1)-th item shown
+        "position" => match it.position(|_| {
+            c += 1;
+            c > n
+        }) {
+            Some(i) => Obs::Len(i),
+            None => Obs::None,
+        },
+        "rposition" => match it.rposition(|_| {
+            c += 1;
+            c > n
+        }) {
+            Some(i) => Obs::Len(i),
+            None => Obs::None,
+        },
+        // through a trait object: the vtable entries of the overridden methods
+        "dyn_nth" => {
+            let d: &mut dyn Iterator<Item = T> = it;
+            o(f, d.nth(n))
+        }
+        "dyn_nth_back" => {
+            let d: &mut dyn DoubleEndedIterator<Item = T> = it;
+            o(f, d.nth_back(n))
+        }
         _ => panic!("rt: unknown op {op}"),
     }
 }
@@ -144,6 +168,36 @@ where
             "skip" => Obs::Seq(it.skip(n).map(|x| f(x)).collect()),
             "take" => Obs::Seq(it.take(n).map(|x| f(x)).collect()),
             "rev_skip" => Obs::Seq(it.rev().skip(n).map(|x| f(x)).collect()),
+            // adaptors that ordinary code rarely combines with these iterators
+            "rev_nth" => o(&f, it.rev().nth(n)),
+            "peek_collect" => {
+                let mut p = it.peekable();
+                let _ = p.peek();
+                Obs::Seq(p.map(|x| f(x)).collect())
+            }
+            "max_by_key0" => o(&f, it.max_by_key(|_| 0u8)),
+            "min_by_key0" => o(&f, it.min_by_key(|_| 0u8)),
+            "partition" => {
+                let mut k = 0usize;
+                let (a, b): (Vec<T>, Vec<T>) = it.partition(|_| {
+                    k += 1;
+                    k % 2 == 1
+                });
+                Obs::Seq(a.into_iter().chain(b).map(|x| f(x)).collect())
+            }
+            // lengths reported through adaptors (ExactSizeIterator::len and size_hint of the wrapped iterator)
+            "rev_len" => Obs::Len(it.rev().len()),
+            "skip_len" => Obs::Len(it.skip(n).len()),
+            "take_len" => Obs::Len(it.take(n).len()),
+            "step_by_len" => Obs::Len(it.step_by(n.max(1)).len()),
+            "chain_hint" => {
+                let (a, b) = it.chain(None).size_hint();
+                Obs::Hint(a, b)
+            }
+            "zip_hint" => {
+                let (a, b) = it.zip(0u64..).size_hint();
+                Obs::Hint(a, b)
+            }
             _ => panic!("rt: unknown consuming op {op}"),
         }
     }
